@@ -31,6 +31,16 @@ def _m(x):
     return mp.mpf(x)
 
 
+def _lf(f, x):
+    """loop function at an mp argument that may lie arbitrarily close to 1 (the closed forms cancel like (x-1)^5)"""
+    d = abs(x - 1)
+    if d == 0:
+        return f(mpf(1))
+    extra = 5 * max(0, int(-mp.log10(d)) + 1)
+    with mp.workdps(mp.mp.dps + 10 + extra):
+        return +f(x)
+
+
 # ------------------------------------------------------------------ MSSM reference
 
 def mssm_reference(r):
@@ -69,8 +79,8 @@ def mssm_reference(r):
             nL = (gY * Ni[0] + g2 * Ni[1]) / s2 * XmL - ymu * Ni[2] * XmR
             nR = s2 * gY * Ni[0] * XmR + ymu * Ni[2] * XmL
             x = mi ** 2 / m2
-            t1 = -MM / (12 * m2) * (nL ** 2 + nR ** 2) * om.F1N(x)
-            t2 = mi / (3 * m2) * nL * nR * om.F2N(x)
+            t1 = -MM / (12 * m2) * (nL ** 2 + nR ** 2) * _lf(om.F1N, x)
+            t2 = mi / (3 * m2) * nL * nR * _lf(om.F2N, x)
             chi0 += t1 + t2
             abs0 += abs(t1) + abs(t2)
     chip, absp = mpf(0), mpf(0)
@@ -80,8 +90,8 @@ def mssm_reference(r):
         Vk1 = Vv[k, 0]     # V = Vv   -> V[k][0]
         cL, cR = -g2 * Vk1, ymu * Uk2
         x = mk ** 2 / msv2
-        t1 = MM / (12 * msv2) * (cL ** 2 + cR ** 2) * om.F1C(x)
-        t2 = 2 * mk / (3 * msv2) * cL * cR * om.F2C(x)
+        t1 = MM / (12 * msv2) * (cL ** 2 + cR ** 2) * _lf(om.F1C, x)
+        t2 = 2 * mk / (3 * msv2) * cL * cR * _lf(om.F2C, x)
         chip += t1 + t2
         absp += abs(t1) + abs(t2)
     theta = abs(mp.atan2(abs(Qs[1, 0]), abs(Qs[0, 0])))
@@ -134,7 +144,10 @@ def nt_mssm(case):
 
 # ------------------------------------------------------------------ THDM reference
 
-def thdm_reference(r):
+F2C_CUT = 10 * 2.220446049250313e-16     # the library returns F2C(x) = 0 for 0 < x < 10 epsilon (known finding)
+
+
+def thdm_reference(r, f2c_cut=False):
     mp.mp.dps = 40
     ml = [_m(r["MFe.%d" % i]) for i in range(3)]
     mv = [_m(r["MFv.%d" % i]) for i in range(3)]
@@ -156,8 +169,9 @@ def thdm_reference(r):
         mS2 = mS ** 2
         for g in range(3):
             x = ml[g] ** 2 / mS2
-            t1 = (abs(y[g][1]) ** 2 + abs(y[1][g]) ** 2) * om.F1C(x) / 24 / mS2
-            t2 = sgn * mp.re(mp.conj(y[g][1]) * mp.conj(y[1][g])) * ml[g] / mm * om.F2C(x) / 3 / mS2
+            t1 = (abs(y[g][1]) ** 2 + abs(y[1][g]) ** 2) * _lf(om.F1C, x) / 24 / mS2
+            f2c = mpf(0) if (f2c_cut and 0 < x < F2C_CUT) else _lf(om.F2C, x)
+            t2 = sgn * mp.re(mp.conj(y[g][1]) * mp.conj(y[1][g])) * ml[g] / mm * f2c / 3 / mS2
             tot += t1 + t2
             sabs += abs(t1) + abs(t2)
 
@@ -171,7 +185,7 @@ def thdm_reference(r):
         tot += t
         sabs += abs(t)
     x = mm ** 2 / mhSM ** 2
-    tsm = (mm / v) ** 2 * (om.F1C(x) / 12 + om.F2C(x) / 3) / mhSM ** 2
+    tsm = (mm / v) ** 2 * (_lf(om.F1C, x) / 12 + _lf(om.F2C, x) / 3) / mhSM ** 2
     tot -= tsm
     sabs += abs(tsm)
     pref = mm ** 2 / (8 * mp.pi ** 2)
@@ -201,6 +215,12 @@ def prop_thdm(case):
     got = r.get("amu1L")
     want, sabs = thdm_reference(r)
     if got is None or got != got or abs(mp.mpf(got) - want) > mpf("1e-8") * sabs:
+        if got is not None and got == got:
+            want2, sabs2 = thdm_reference(r, f2c_cut=True)
+            if abs(mp.mpf(got) - want2) <= mpf("1e-8") * sabs2:
+                return Fail("one-loop THDM contribution lacks the F2C term of a lepton with (m_l/m_S)^2 < 2.2e-15",
+                            kind="f2c-tiny-argument", got=got, expected=float(want), sum_abs_terms=float(sabs),
+                            deviation=float(abs(mp.mpf(got) - want) / sabs))
         return Fail("one-loop THDM contribution differs from the independent evaluation",
                     got=got, expected=float(want), sum_abs_terms=float(sabs),
                     deviation=float(abs(mp.mpf(got if got == got else 0) - want) / sabs) if got is not None else None)
@@ -224,6 +244,11 @@ def cls_thdm(case):
     return out
 
 
+def known_match(entry, case, fail):
+    m = entry.get("match", {})
+    return bool(m.get("kind")) and fail.detail.get("kind") == m["kind"]
+
+
 def subchecks(ctx):
     return [
         Sub("mssm", mssm_case(), prop_mssm, {"quick": 150, "thorough": 6000},
@@ -231,6 +256,6 @@ def subchecks(ctx):
             classes=lambda c: ["mssm", "signs:%s%s%s" % tuple("-" if c["p"][k] < 0 else "+" for k in ("Mu", "MassB", "MassWB"))],
             rule="on-shell MSSM point; amu1LChi0, amu1LChipm and their sum vs the independent mp evaluation"),
         Sub("thdm", thdm_case(), prop_thdm, {"quick": 250, "thorough": 6000},
-            nontrivial=nt_thdm, classes=cls_thdm,
+            nontrivial=nt_thdm, classes=cls_thdm, known_match=known_match,
             rule="THDM point; calculate_amu_1loop vs the flavour-summed expression evaluated in mp from reported couplings"),
     ]
